@@ -30,9 +30,25 @@ Proof.
   split; [exact (DTS.Proofs.WMeanP.approx_pos vf vb Hf Hb)|exact (DTS.Proofs.WMeanP.approx_le_min vf vb Hf Hb)].
 Qed.
 
+(* avg1 / avgx1: the arithmetic mean lies in the hull of the averaged values (n = nQ l, the number of averaged values) *)
+Theorem C09_arithmetic_mean_in_hull (l : list (Q * Q)) lo hi : (forall xv, In xv l -> (lo <= fst xv <= hi)%Q) ->
+  (lo * nQ l <= sumQ fst l <= hi * nQ l)%Q.
+Proof. exact (amean_in_hull l lo hi). Qed.
+(* with equal variances the weighted modes reduce to the arithmetic ones: wsum/isum = sum x / n (cross-multiplied) *)
+Theorem C09_equal_variances_give_the_arithmetic_mean (l : list (Q * Q)) v : (0 < v)%Q -> (forall xv, In xv l -> (snd xv == v)%Q) ->
+  (wsum l * nQ l == sumQ fst l * isum l)%Q.
+Proof. exact (wmean_equal_var l v). Qed.
+(* avg2 / avgx2 is the minimiser of the inverse-variance weighted sum of squared deviations, by exactly isum * (m - m_w)^2 *)
+Theorem C09_weighted_mean_minimises_weighted_squares l m : l <> [] -> (forall xv, In xv l -> (0 < snd xv)%Q) ->
+  (wss l m == wss l (wsum l / isum l) + isum l * ((m - wsum l / isum l) * (m - wsum l / isum l)) /\
+   wss l (wsum l / isum l) <= wss l m)%Q.
+Proof. exact (wmean_minimises l m). Qed.
+
 Example C09_ex : outputs false AvgX1 XSel true =
   [("tmpf_avgx1", ["time"]); ("tmpf_mc_avgx1_var", ["time"]); ("tmpf_mc_avgx1", ["CI"; "time"])]%string.
 Proof. vm_compute. reflexivity. Qed.
 
 Print Assumptions C09_no_output_keeps_the_sample_dimension. Print Assumptions C09_weighted_mean_in_hull. Print Assumptions C09_weighted_variance.
 Print Assumptions C09_tmpw_of_weighted_modes.
+Print Assumptions C09_arithmetic_mean_in_hull. Print Assumptions C09_equal_variances_give_the_arithmetic_mean.
+Print Assumptions C09_weighted_mean_minimises_weighted_squares.
